@@ -1,0 +1,18 @@
+//go:build verif
+
+package util
+
+// Contracts for the verif engine (/verif). Comment-only: no code is compiled
+// from this file with or without the tag.
+
+// The next occurrence of a schedule is computed from the exact reference instant (C10: an occurrence is
+// never fired before its time, and the schedule always advances): the cron library is asked for the first
+// occurrence after curr itself, not after a rounded instant. cronnext(e, t) is the spec function used by
+// the schedule coroutines.
+//@ func Next
+//@ props C10
+//@ nopanic C13
+// ASSUMED (not checked at the callers, which use the engine's summary of Next): the reference instant is a
+// server clock value or a stored occurrence before the year 2262, so that curr*1e6 ns fits an int64
+//@ requires curr >= 0 && curr <= 9223372036854
+//@ ensures result1 == nil ==> result0 == cronnext(cronExp, curr)
